@@ -45,7 +45,7 @@ JudgeC12(t) ==
 JudgeC13(t) ==
     LET s     == t.script
         f     == t.final
-        fault == s.event \in {"peerClose", "peerEof"} \/ (s.event = "peerBad" /\ s.k <= 3) \/ f.faultTriggered
+        fault == s.event \in {"peerClose", "peerEof", "peerSilent"} \/ (s.event = "peerBad" /\ s.k <= 3) \/ f.faultTriggered
         local == s.event \in {"localClose", "localCloseReason", "localCloseLateRead"}
         nrep  == Count(t, "ReportError")
         known == First(t, {"CloseEnd", "ReportError"})
